@@ -106,13 +106,13 @@ class Signature(wiring.Signature):
         if granularity > data_width:
             raise ValueError(f"Granularity {granularity} may not be greater than data width "
                              f"{data_width}")
-        for feature in features:
-            Feature(feature) # raises ValueError if feature is invalid
+        # `features` may be any iterable, including a one-shot iterator: go over it only once.
+        features = frozenset(Feature(f) for f in features) # raises ValueError if a feature is invalid
 
         self._addr_width  = addr_width
         self._data_width  = data_width
         self._granularity = granularity
-        self._features    = frozenset(Feature(f) for f in features)
+        self._features    = features
 
         members = {
             "adr":   Out(self.addr_width),
